@@ -23,6 +23,8 @@ struct G<'a> {
     disp_policy: u64,
     it_policy: u64,
     cfg: &'a GenCfg,
+    /// a fixed share of the runs (by run number) is given one very long multiscalar input
+    force_big: bool,
 }
 
 impl<'a> G<'a> {
@@ -200,7 +202,9 @@ impl<'a> G<'a> {
         let mut n = sizes[self.rng.weighted(&w)].0 as usize;
         let mut entry = self.rng.below(3) as u8;
         let mut force_plain = false;
-        if self.rng.chance(1, if self.cfg.thorough { 200 } else { 700 }) {
+        let forced = self.force_big;
+        self.force_big = false;
+        if forced || self.rng.chance(1, if self.cfg.thorough { 200 } else { 700 }) {
             // more terms than any fixed-size block an implementation might work in (4096, 8192)
             n = if self.rng.coin() { 4100 } else { 8200 };
             if self.rng.coin() {
@@ -660,7 +664,7 @@ pub fn generate(seed: u64, run: u64, cfg: &GenCfg) -> Plan {
     let fault_pct = *rng.pick(&[0u64, 0, 5, 15, 30]);
     let disp_policy = rng.below(5);
     let it_policy = rng.below(5);
-    let mut g = G { rng, m: ModelG::new(), steps: Vec::new(), c: Counters::new(), fault_pct, disp_policy, it_policy, cfg };
+    let mut g = G { rng, m: ModelG::new(), steps: Vec::new(), c: Counters::new(), fault_pct, disp_policy, it_policy, cfg, force_big: run % 200 == 11 };
     bump(&mut g.c, if fault_pct == 0 { "runs:fault_free" } else { "runs:fault_injecting" });
     bump(&mut g.c, &format!("swarm:dispatch_policy_{}", disp_policy));
 
